@@ -177,8 +177,11 @@ func (s *MkCondSimplifier) simplifyYesNo(expr *MkExpr, fromEmpty bool, neg bool)
 	// replace constructs the state before and after the autofix.
 	replace := func(positive bool, pattern, lower string) (bool, string, string) {
 		defined := s.isDefined(varname, vartype)
-		if !defined && !positive {
-			// Too many negations; maybe handle this case later.
+		if !positive && !(defined && fromEmpty && vartype.IsNonemptyIfDefined()) {
+			// For an empty VAR, ${VAR:Npattern} is empty as well,
+			// while ${VAR:tl} != pattern is true.
+			// As a bare expression, ${VAR:Npattern} is also false
+			// if the remaining word is the number 0.
 			return false, "", ""
 		}
 		uMod := condStr(!defined && !expr.HasModifier("U"), ":U", "")
